@@ -21,7 +21,7 @@ RULE = ("thresholds: every sorted sub-list-with-repeats of {0,1/4,1/2,3/4,1} of 
         "below the first and above the last threshold) plus 1/8-offsets, -1/4 and 5/4 in the random part; all 0/1 label sets; "
         "both optimisation modes; n <= 3 exhaustive for the binary curve (quick: n <= 2 exhaustive + 60 inputs of size 3 per threshold list), random n up to 128; "
         "class-extra stream: float64 scores a hair below thresholds, caller-owned threshold tensors, bfloat16/float16 scores around float32 "
-        "thresholds their dtype cannot represent (all six binary binned forms vs per-threshold counting on the exact values); "
+        "thresholds their dtype cannot represent (all six binary binned forms, the multiclass / multilabel binned PR curves as functional and class in both modes, vs per-threshold counting on the exact values); "
         "non-trivial = distinct (function, parameters, input) with at least one sample and one threshold")
 MODELLED = ["IEEE rounding of the final float32/float64 divisions and of the Riemann/trapezoid sums (compared with tolerance 2e-5 / 1e-9)",
             "torch.linspace float32 values are taken from torch and passed to the model as exact rationals"]
@@ -865,6 +865,39 @@ def class_extra_verdict(kind: str, name: str, seed: int):
             return (f"C06|{name}|{str(dt).split('.')[-1]}-scores-vs-inexact-thresholds|differs-from-per-threshold-counting",
                     f"{name} on {str(dt).split('.')[-1]} scores {x.float().tolist()} targets {y.tolist()} thresholds {thr} gives {got.tolist()} where counting score >= threshold on the exact values gives {exp.tolist()}")
         return None
+    if kind == "lowprec-scores-multi":
+        # the same for the multiclass / multilabel binned PR curves (functional in both optimisation modes, and the classes)
+        dt = (torch.bfloat16, torch.float16)[seed % 2]
+        thr = [0.0, 0.1, 0.3, 0.7, 0.9, 1.0]
+        t32 = torch.tensor(thr, dtype=torch.float32)
+        img = t32[1:5].to(dt)
+        one_ulp = torch.nextafter(img.float(), torch.tensor(2.0)).to(dt)
+        pool = torch.cat([img, one_ulp, torch.tensor([0.0, 0.5, 1.0, 0.2, 0.8]).to(dt)])
+        n, C = 16, 3
+        x = pool[torch.randint(0, len(pool), (n * C,), generator=g)].reshape(n, C)
+        multiclass = name.lower().startswith("multiclass")
+        if multiclass:
+            y = torch.randint(0, C, (n,), generator=g); y[:C] = torch.arange(C)
+            onehot = torch.nn.functional.one_hot(y, C); kw = {"num_classes": C}
+        else:
+            y = torch.randint(0, 2, (n, C), generator=g); y[0] = 1
+            onehot = y; kw = {"num_labels": C}
+        opt = ("vectorized", "memory")[(seed // 2) % 2]
+        if name[0].isupper():
+            m = getattr(M, name)(threshold=thr, optimization=opt, **kw); m.update(x[:7], y[:7]); m.update(x[7:], y[7:]); out = m.compute()
+        else:
+            out = getattr(F, name)(x, y, threshold=thr, optimization=opt, **kw)
+        pred = x.double().unsqueeze(-1) >= t32.double()
+        pos = (onehot == 1).unsqueeze(-1)
+        tp, fp, fn_ = (pred & pos).sum(0).double(), (pred & ~pos).sum(0).double(), (~pred & pos).sum(0).double()
+        prec = torch.cat([torch.nan_to_num(tp / (tp + fp), nan=1.0), torch.ones(C, 1, dtype=torch.float64)], 1)
+        rec = torch.cat([tp / (tp + fn_), torch.zeros(C, 1, dtype=torch.float64)], 1)
+        P, R = torch.stack(list(out[0])).double(), torch.stack(list(out[1])).double()
+        if P.shape != prec.shape or R.shape != rec.shape or not (torch.allclose(P, prec, rtol=0, atol=1e-5, equal_nan=True) and torch.allclose(R, rec, rtol=0, atol=1e-5, equal_nan=True)):
+            return (f"C06|{name}|{str(dt).split('.')[-1]}-scores-vs-inexact-thresholds|differs-from-per-threshold-counting",
+                    f"{name}(optimization={opt}) on {str(dt).split('.')[-1]} scores {x.float().tolist()} targets {y.tolist()} thresholds {thr} gives precision {P.tolist()} recall {R.tolist()} "
+                    f"where counting score >= threshold on the exact values gives {prec.tolist()} / {rec.tolist()}")
+        return None
     if kind == "threshold-tensor-owned":
         cls = getattr(M, name)
         kw = {"num_classes": 3} if name.startswith("Multiclass") else ({"num_labels": 3} if name.startswith("Multilabel") else {})
@@ -895,7 +928,9 @@ def class_extra_verdict(kind: str, name: str, seed: int):
 CLASS_EXTRA = ([("float64-below-threshold", n) for n in ("BinaryBinnedAUROC", "BinaryBinnedAUPRC", "BinaryBinnedPrecisionRecallCurve")]
                + [("threshold-tensor-owned", n) for n in ("BinaryBinnedPrecisionRecallCurve", "MulticlassBinnedPrecisionRecallCurve", "MultilabelBinnedPrecisionRecallCurve")]
                + [("lowprec-scores", n) for n in ("binary_binned_auroc", "binary_binned_auprc", "binary_binned_precision_recall_curve",
-                                                  "BinaryBinnedAUROC", "BinaryBinnedAUPRC", "BinaryBinnedPrecisionRecallCurve")])
+                                                  "BinaryBinnedAUROC", "BinaryBinnedAUPRC", "BinaryBinnedPrecisionRecallCurve")]
+               + [("lowprec-scores-multi", n) for n in ("multiclass_binned_precision_recall_curve", "multilabel_binned_precision_recall_curve",
+                                                        "MulticlassBinnedPrecisionRecallCurve", "MultilabelBinnedPrecisionRecallCurve")])
 
 
 def class_extra_stream(rep: Report):
